@@ -711,7 +711,8 @@ func (ex *Exec) havocTarget(e SExpr, env *Env, pre, post *State) {
 				h := ex.getHeap(post, name, ArrS(SInt, fs))
 				nv := ex.D.Fresh(name+".new", fs)
 				ex.wfVal(nv, st.Field(i).Type())
-				ex.setHeap(post, name, ex.named(name, Store(h, obj.T, nv)))
+				// nothing is written through a nil target
+				ex.setHeap(post, name, ex.named(name, Ite(Eq(obj.T, IntLit(0)), h, Store(h, obj.T, nv))))
 				return
 			}
 		}
@@ -726,6 +727,30 @@ func (ex *Exec) havocTarget(e SExpr, env *Env, pre, post *State) {
 			name := heapArrName(et)
 			h := ex.getHeap(post, name, ArrS(SInt, ArrS(SInt, es)))
 			ex.setHeap(post, name, ex.named(name, Store(h, SlBase(sl.T), ex.D.Fresh(name+".new", ArrS(SInt, es)))))
+			return
+		case "mapsof":
+			// every map of the named type may change
+			id0, ok := x.Args[0].(*SStrLit)
+			id := &SIdent{}
+			if ok {
+				id.Name = id0.Val
+			}
+			var mt *types.Map
+			if ok {
+				if t, isMap := ex.V.specType(id.Name, env.pkgOr(ex.pkg)).Underlying().(*types.Map); isMap {
+					mt = t
+				}
+			}
+			if mt == nil {
+				ex.fail("mapsof: not a map type: %s", show(x.Args[0]))
+				return
+			}
+			vs := sortOf(mt.Elem())
+			dn, vn := mapDomName(mt), mapValName(mt)
+			ex.getHeap(pre, dn, ArrS(SInt, ArrS(SInt, SBool)))
+			ex.getHeap(pre, vn, ArrS(SInt, ArrS(SInt, vs)))
+			ex.setHeap(post, dn, ex.D.Fresh(dn, ArrS(SInt, ArrS(SInt, SBool))))
+			ex.setHeap(post, vn, ex.D.Fresh(vn, ArrS(SInt, ArrS(SInt, vs))))
 			return
 		case "entries":
 			m := ex.evalSpec(x.Args[0], env)
